@@ -13,3 +13,5 @@ pub mod c11;
 pub mod c09;
 pub mod c10;
 pub mod c20;
+pub mod c18;
+pub mod c04;
